@@ -123,3 +123,29 @@ def _het_int_log_cond_y(rp, st):
         e = np.asarray([val_value(v) for v in exp["val"]], dtype=float)
         cmp_lin("return", np.asarray(val, dtype=float).reshape(-1), e)
     return None, ("custom", val, chk)
+
+
+def _val_rows(exp):
+    return np.asarray([val_value(v) for v in exp["val"]], dtype=float)
+
+
+@binding("FeatIntLogCond")
+def _feat_int_log_cond(rp, st):
+    a = st["a"]
+    val = rp.heap[a["i"]].integrate_log_conditional(rp.heap[a["j"]])
+
+    def chk(val, exp):
+        cmp_lin("return", np.asarray(val, dtype=float).reshape(-1), _val_rows(exp))
+    return None, ("custom", val, chk)
+
+
+@binding("FeatIntLogCondY")
+def _feat_int_log_cond_y(rp, st):
+    a = st["a"]
+    c, p = rp.heap[a["i"]], rp.heap[a["j"]]
+    y = stack_q(a["y"])
+    val = c.integrate_log_conditional_y(p)(y) if a["via"] == "callable" else c.integrate_log_conditional_y(p, y=y)
+
+    def chk(val, exp):
+        cmp_lin("return", np.asarray(val, dtype=float).reshape(-1), _val_rows(exp))
+    return None, ("custom", val, chk)
